@@ -121,7 +121,8 @@ def under(path, prefix):
 
 # --------------------------------------------------------------------------- scratch repository
 
-CONTENTS = [b"", b"A", b"hello world\n", b"HELLO WORLD\n", b"dup-content", bytes(range(256)) * 3]
+CONTENTS = [b"", b"A", b"hello world\n", b"HELLO WORLD\n", b"dup-content", bytes(range(256)) * 3,
+            bytes((i * 7 + 3) % 251 for i in range(1 << 20)) + b"tail"]
 
 
 class Scratch:
@@ -358,8 +359,11 @@ class Runner:
     def snap_main(self):
         """snapshot of the storage root without the default staging/locks extension dirs"""
         s = snapshot(self.root)
+        # the default staging root lives in <root>/extensions: creating that directory is part of
+        # creating the staging root, so the bare directory entry is not main-repository data
         return {k: v for k, v in s.items()
-                if not under(k, "extensions/rocfl-staging") and not under(k, "extensions/rocfl-locks")}
+                if not under(k, "extensions/rocfl-staging") and not under(k, "extensions/rocfl-locks")
+                and not (k == "extensions" and v == ("d",))}
 
     def snap_staging(self):
         return snapshot(self.staging_root)
